@@ -73,7 +73,7 @@ func runC11(c *Ctx) {
 				if wc, ok := v.(*ssa.Call); ok {
 					// the wrap moved into a helper: cur = wrap(cur + amount)
 					if callee := wc.Call.StaticCallee(); callee != nil && isWrapHelper(callee, size) && len(wc.Call.Args) == 2 {
-						if add, ok := stripConv(wc.Call.Args[1]).(*ssa.BinOp); ok && add.Op == token.ADD && loadOfField(add.X, cur) {
+						if add, ok := stripConv(wc.Call.Args[1]).(*ssa.BinOp); ok && add.Op == token.ADD && (loadOfField(add.X, cur) || loadOfField(add.Y, cur)) {
 							c.ok(fn, what, st.Pos(), "advance wrapped by "+callee.Name())
 							continue
 						}
@@ -94,13 +94,13 @@ func runC11(c *Ctx) {
 					// the conditional subtract: guarded by cur >= size
 					good := false
 					for _, l := range guardsOf(st.Block()) {
-						op, x, y, ok := l.cmp()
+						op, x, y, ok := l.cmpWhere(func(v ssa.Value) bool { return loadOfField(v, cur) })
 						if ok && op == token.GEQ && loadOfField(x, cur) && loadOfField(y, size) {
 							good = true
 						}
 					}
 					c.check(good, fn, what, st.Pos(), "subtracts size exactly when the cursor reached it", "size is subtracted from the cursor under a test other than cursor >= size: a cursor equal to size is left outside the ring (or a valid one is wrapped)")
-				case bo.Op == token.ADD && loadOfField(bo.X, cur):
+				case bo.Op == token.ADD && (loadOfField(bo.X, cur) || loadOfField(bo.Y, cur)):
 					// must be followed on every path by the wrap test
 					okp, why := mustPass(st, func(in ssa.Instruction) bool {
 						ifi, ok := in.(*ssa.If)
@@ -112,7 +112,8 @@ func runC11(c *Ctx) {
 						if !ok {
 							return false
 						}
-						return (b2.Op == token.GEQ || b2.Op == token.LSS) && loadOfField(b2.X, cur) && loadOfField(b2.Y, size)
+						op2, x2, y2, ok2 := binCmpWhere(b2, func(v ssa.Value) bool { return loadOfField(v, cur) })
+						return ok2 && (op2 == token.GEQ || op2 == token.LSS) && loadOfField(x2, cur) && loadOfField(y2, size)
 					})
 					// and the subtract must exist
 					hasSub := false
@@ -204,7 +205,7 @@ func runC11(c *Ctx) {
 				good = true
 			}
 			if loadOfField(sl.X, sliceF) && loadOfField(sl.Low, tail) {
-				if bo, ok := stripConv(sl.High).(*ssa.BinOp); ok && bo.Op == token.ADD && loadOfField(bo.X, tail) && stripConv(bo.Y) == amounts["Claim"] {
+				if am, ok := incrementOf(sl.High, tail); ok && stripConv(am) == amounts["Claim"] {
 					good = true
 				}
 			}
@@ -232,7 +233,7 @@ func runC11(c *Ctx) {
 			if wc, ok := v.(*ssa.Call); ok && wc.Call.StaticCallee() != nil && isWrapHelper(wc.Call.StaticCallee(), size) && len(wc.Call.Args) == 2 {
 				v = stripConv(wc.Call.Args[1])
 			}
-			if bo, ok := v.(*ssa.BinOp); ok && bo.Op == token.ADD && loadOfField(bo.X, spec.cur) && stripConv(bo.Y) == am {
+			if inc, ok := incrementOf(v, spec.cur); ok && stripConv(inc) == am {
 				curOK = true
 			}
 		}
